@@ -38,7 +38,7 @@ def run(tier):
               "then write, output just before exit, closes stdout / stdin early, killed by signal, ...) x payloads "
               "{none, 0, 1, 4096, 65537, 1 MiB} (thorough: 11 sizes) x delay plans at the parent's waitpid/poll/read "
               "(none, 80 ms before the first waitpid, 15 ms before every waitpid, 10 ms before every poll), for "
-              "run_process (check on/off) and communicate; timeouts; repeated calls; Subprocess objects destroyed with the child alive (asleep, ignoring SIGTERM, blocked) or gone; each in a forked driver with a 40 s "
+              "run_process (check on/off) and communicate; timeouts; repeated calls; Subprocess objects destroyed or re-assigned with the child alive (asleep, ignoring SIGTERM, blocked) or gone; each in a forked driver with a 40 s "
               "watchdog; distinct = (api, payload class, delay kind, program shape)")
     c.assumptions = ["SIGPIPE is ignored by the caller (as any user of pipes must)",
                      "content of large outputs is compared with the stream pattern by the harness; volumes and status are "
